@@ -415,6 +415,31 @@ def rule_output_declaration(ck: Check, repo: Repo, rid: str = "R8") -> None:
     r.floor(1, "click.File options of spdx", got=n)
 
 
+# ------------------------------------------------------------------ R9: files that could not be examined are not silently left out
+def rule_unexamined_files(ck: Check, repo: Repo, rid: str = "R9") -> None:
+    """'One File section for every covered file.'  ProjectReport.generate puts a file whose examination failed (unreadable,
+    a name that cannot be encoded, a parser crash) into read_errors and builds no FileReport for it, so the document has
+    no section for it.  Decided: whether the spdx command looks at read_errors at all (to fail, or to say so in the
+    document); if it never does, a covered file is missing from the bill of materials and the exit status is 0."""
+    r = ck.rule(rid, "covered files that could not be examined are reported by spdx (exit status or document), not silently omitted")
+    fn = repo.commands().get("spdx")
+    if fn is None:
+        raise AnalysisError("anchor vanished: command spdx")
+    q = repo.qualname_of(fn)
+    bom = repo.func("reuse.report.ProjectReport.bill_of_materials")
+    uses = [x for f in (fn, bom) for x in ast.walk(f) if isinstance(x, ast.Attribute) and x.attr == "read_errors"]
+    gen = repo.func("reuse.report.ProjectReport.generate")
+    records = any(isinstance(x, ast.Attribute) and x.attr == "read_errors" for x in ast.walk(gen))
+    r.instance("read-errors", {"recorded_by_generate": records, "consulted_by_spdx_or_document": len(uses)}, q)
+    if not records:
+        raise AnalysisError("ProjectReport.generate no longer records read errors (anchor vanished)")
+    if not uses:
+        r.violation(q, "read errors are never consulted on the spdx path",
+                    "a covered file named `caf\\xe9.py` (not valid UTF-8; also an unreadable file, or one whose header crashes the parser)"
+                    " is logged as `Could not read`, gets no File section and `reuse spdx` exits 0: the document silently lacks a covered file",
+                    repo.loc(fn))
+
+
 def run(ck: Check, repo: Repo) -> None:
     ck.explanation = (
         "Structure of the bill of materials decided on every path of bill_of_materials: both loops range over the"
@@ -433,6 +458,7 @@ def run(ck: Check, repo: Repo) -> None:
     rule_checksum(ck, repo)
     rule_concluded(ck, repo)
     rule_output_declaration(ck, repo)
+    rule_unexamined_files(ck, repo)
     # 'a File section for every covered file and for no other file': the covered set (shared with C03-R1/R2)
     from . import c03
     from ..fold import Folder
